@@ -411,7 +411,7 @@ impl Model {
 
     /// would the node still be valid once it is linked to its inputs? (a map-like node with an
     /// invalid input, a bind with an invalid left-hand side, are invalidated on the spot)
-    fn valid_when_linked(&self, t: Tag, memo: &mut HashMap<Tag, bool>) -> bool {
+    pub fn valid_when_linked(&self, t: Tag, memo: &mut HashMap<Tag, bool>) -> bool {
         if let Some(v) = memo.get(&t) {
             return *v;
         }
